@@ -61,6 +61,22 @@ def other(s: str) -> int:
         return 2
     return 3
 
+class Slow:
+    def __init__(self, delay: float):
+        self.delay = delay
+
+    def __eq__(self, other):
+        time.sleep(self.delay)
+        return True
+
+    __hash__ = None
+
+def spin_eq(a, b) -> int:
+    hits = 0
+    while True:
+        if a == b:
+            hits += 1
+
 def busy(ms: int) -> int:
     end = time.monotonic() + ms / 1000.0
     k = 0
@@ -84,6 +100,8 @@ LOOPING = {
     "spin2": ["var_0 = quick(9)", "var_1 = spin(2)"],
     "spin_sleep": ["var_0 = spin_sleep(3)"],
     "nap": ["var_0 = nap_then_branch(%NAP%)"],
+    # abandoned INSIDE a predicate callback: the operands' __eq__ sleeps longer than timeout + grace join
+    "spin_eq": ["var_0 = Slow(%EQ%)", "var_1 = Slow(%EQ%)", "var_2 = spin_eq(var_0, var_1)"],
 }
 
 
@@ -129,6 +147,18 @@ def main() -> None:
 
     type(tracer).stop = counting_stop
 
+    # observe the timeouts the main thread passes to Thread.join while it waits for a test's thread
+    joins: list = []
+    real_join = threading.Thread.join
+
+    def recording_join(self, timeout=None):
+        if threading.current_thread().ident == main_ident and self.daemon:
+            joins.append(timeout)
+        return real_join(self, timeout)
+
+    threading.Thread.join = recording_join
+    kept: list = []          # (record, result object): re-read at the end of the session
+
     def tc(lines):
         t = TestCase()
         for i, ln in enumerate(lines):
@@ -138,14 +168,23 @@ def main() -> None:
     def run(name, lines):
         t = tc(lines)
         before = stops["n"]
+        del joins[:]
         threads_before = set(threading.enumerate())
         t0 = time.monotonic()
         r = ex.execute(t)
         wall = time.monotonic() - t0
         new_alive = sum(1 for th in threading.enumerate() if th not in threads_before and th.is_alive())
+        rec = snapshot(r)
+        rec.update({"name": name, "size": len(lines), "wall": round(wall, 3),
+                    "main_stops": stops["n"] - before, "new_alive": new_alive, "joins": list(joins),
+                    "ident_after": tracer.tracer._current_thread_identifier is None})
+        kept.append((rec, r))
+        return rec
+
+    def snapshot(r):
         tr = r.execution_trace
         return {
-            "name": name, "size": len(lines), "wall": round(wall, 3), "timeout": bool(r.timeout),
+            "timeout": bool(r.timeout),
             "exceptions": sorted([int(k), type(v).__name__] for k, v in r.exceptions.items()),
             "lines": sorted(int(x) for x in sp.lineids_to_linenos(tr.covered_line_ids)),
             "code_objects": sorted(int(x) for x in tr.executed_code_objects),
@@ -153,22 +192,37 @@ def main() -> None:
             "false": sorted(int(x) for x in tr.false_distances),
             "true_zero": sorted(int(k) for k, v in tr.true_distances.items() if v == 0.0),
             "false_zero": sorted(int(k) for k, v in tr.false_distances.items() if v == 0.0),
-            "main_stops": stops["n"] - before, "new_alive": new_alive,
-            "ident_after": tracer.tracer._current_thread_identifier is None,
+            "predicates": sorted(int(x) for x in tr.executed_predicates),
         }
 
     rng = random.Random(sc["seed"])
     reference = {name: run(name, lines) for name, lines in TERMINATING.items()}
+    eq_delay = min(max_t, per * 3) + max_t + 1.5       # longer than timeout + grace join of the spin_eq test
     session = []
-    for _ in range(sc["n"]):
-        if rng.random() < 0.4:
+    last_eq = None
+    plan = list(sc.get("first", []))
+    for i in range(sc["n"]):
+        if i < len(plan):
+            name = plan[i]
+        elif rng.random() < 0.4:
             name = rng.choice(list(LOOPING))
-            lines = [ln.replace("%NAP%", str(rng.choice([max_t * 1.3, max_t * 2.2, max_t * 2.6, max_t * 3.5])))
-                     for ln in LOOPING[name]]
-            session.append({"kind": "looping", **run(name, lines), "lines_src": lines})
         else:
             name = rng.choice(list(TERMINATING))
+        if name in LOOPING:
+            lines = [ln.replace("%NAP%", str(rng.choice([max_t * 1.3, max_t * 2.2, max_t * 2.6, max_t * 3.5])))
+                       .replace("%EQ%", str(eq_delay)) for ln in LOOPING[name]]
+            if name == "spin_eq":
+                last_eq = time.monotonic()
+            session.append({"kind": "looping", **run(name, lines), "lines_src": lines})
+        else:
             session.append({"kind": "terminating", **run(name, TERMINATING[name])})
+    # let every thread that was abandoned inside a sleeping __eq__ wake up and finish its callback, then
+    # read all results again: a result must not change after it was returned
+    if last_eq is not None:
+        time.sleep(max(0.0, last_eq + eq_delay + 1.5 - time.monotonic()))
+    n_ref = len(reference)
+    for k, (rec, r) in enumerate(kept):
+        (rec if k < n_ref else session[k - n_ref])["final"] = snapshot(r)
     alive = sum(1 for th in threading.enumerate() if th is not threading.main_thread())
     print("RESULT " + json.dumps({"reference": reference, "session": session, "threads_alive_at_end": alive,
                                   "max_timeout": max_t, "per_stmt": per}), flush=True)
